@@ -183,3 +183,61 @@ def contains(node, pred):
 
 def text(node):
     return norm_text(node)
+
+
+# ---------------------------------------------------------------------------
+# shape matching modulo local names: pattern identifiers that start with `L_` are wildcards for a
+# plain name (bound consistently within one `bind` dict); everything else must be structurally equal.
+
+def _unify(p, n, bind):
+    if isinstance(p, ast.Name) and p.id.startswith('L_'):
+        if not isinstance(n, ast.Name):
+            return False
+        if p.id in bind:
+            return bind[p.id] == n.id
+        if n.id in bind.values():
+            # two different wildcards may not capture the same name
+            return False
+        bind[p.id] = n.id
+        return True
+    if type(p) is not type(n):
+        return False
+    if isinstance(p, ast.AST):
+        for f in p._fields:
+            if f in ('ctx', 'type_comment', 'kind'):
+                continue
+            if not _unify(getattr(p, f, None), getattr(n, f, None), bind):
+                return False
+        return True
+    if isinstance(p, list):
+        return len(p) == len(n) and all(_unify(a, b, bind) for a, b in zip(p, n))
+    return p == n
+
+
+def like(node, src, bind=None):
+    """Does `node` (expression or statement) have the shape of `src`?  Identifiers in src that start with
+    `L_` match any local name, consistently with the bindings already in `bind`."""
+    if node is None:
+        return False
+    try:
+        pat = ast.parse(src.strip()).body[0]
+    except SyntaxError:
+        pat = ast.parse('(%s)' % src.strip(), mode='eval').body
+    if isinstance(pat, ast.Expr) and not isinstance(node, ast.stmt):
+        pat = pat.value
+    trial = dict(bind or {})
+    if _unify(pat, node, trial):
+        if bind is not None:
+            bind.update(trial)
+        return True
+    return False
+
+
+def find_like(root, src, bind=None):
+    """All nodes under root (not entering nested defs) with the shape of src."""
+    out = []
+    for n in walk_no_nested(root):
+        b = dict(bind or {})
+        if like(n, src, b):
+            out.append((n, b))
+    return out
